@@ -70,3 +70,17 @@ Theorem C01_source_sizes : EXEC_JIT_SIZE = AMD64_EXEC_JIT_SIZE /\ BOOL_JIT_SIZE 
   e_jit_size (enc_amd64 true) (KExec 0) = AMD64_EXEC_JIT_SIZE /\ e_jit_size (enc_amd64 true) (KBool true) = AMD64_BOOL_JIT_SIZE.
 Proof. exact src_amd64_sizes. Qed.
 Print Assumptions C01_source_sizes.
+
+(* at every moment of an installation (x86-64 and AArch64: the encoders that use a trampoline): the trampoline is written and flushed
+   BEFORE the entry is redirected to it, nothing else is written in between, and the entry write is the last write: a call arriving
+   from another thread meanwhile finds the entry still original, or a branch to a trampoline that already holds its code *)
+From Inj Require Import LifeProofs InstallOrder.
+Theorem C01_trampoline_written_before_entry : forall c k s func kd s' g, enc_wf (c_enc c) -> alloc_wf (c_alloc c) -> e_uses_jit (c_enc c) = true ->
+  install c k s func kd = (s', ROk g) ->
+  exists code bs pre mid ppa ppl,
+    e_tramp (c_enc c) (g_jit g) kd = EBytes code /\ e_entry (c_enc c) func (g_jit g) kd = EBytes bs /\
+    Forall no_write pre /\ Forall no_write mid /\
+    o_trace s' = o_trace s ++ pre ++ [EWrite (g_jit g) code; EFlush (g_jit g) (g_jit g + zlen code)] ++ mid
+                            ++ [EMprotect ppa ppl true; EWrite (e_patch_addr (c_enc c) func) bs; EFlush (e_patch_addr (c_enc c) func) (e_patch_addr (c_enc c) func + zlen bs)].
+Proof. exact install_order. Qed.
+Print Assumptions C01_trampoline_written_before_entry.
